@@ -340,6 +340,13 @@ class GenExec(Exec):
             q = o.cls.qualname
             if q == WRITER_Q and attr == "string_sanitization_mode":
                 return o.fields["_string_sanitization_mode"]
+            if q == READER_Q and "rt" in o.fields:
+                if attr == "chunked_reading_mode":
+                    return self.rt.mode
+                if attr == "position":
+                    return self.rt.pos
+                if attr == "remaining":
+                    return self.rt.rem()
             if q == READER_Q and "cdata" in o.fields:
                 if attr == "chunked_reading_mode":
                     return o.fields["cmode"]
@@ -366,6 +373,9 @@ class GenExec(Exec):
                 q = o.cls.qualname
                 if q == WRITER_Q and t.attr == "string_sanitization_mode":
                     o.fields["_string_sanitization_mode"] = self.truth(v) if not is_bool(v) else v
+                    return
+                if q == READER_Q and t.attr == "chunked_reading_mode" and "rt" in o.fields:
+                    self.rt.mode = simp(self.truth(v) if not is_bool(v) else v)
                     return
                 if q == READER_Q and t.attr == "chunked_reading_mode" and "cdata" in o.fields:
                     nv = simp(self.truth(v) if not is_bool(v) else v)
@@ -408,6 +418,8 @@ class GenExec(Exec):
         if n == "bytes" and args and (isinstance(args[0], ZSeq) or isinstance(args[0], MaybeV)):
             a = self.none_use(args[0], "bytes()") if isinstance(args[0], MaybeV) else args[0]
             return ZSeq(a.t, a.elem, a.nonneg, mutable=False)          # an immutable copy with the same contents
+        if n in ("tuple", "len") and args and isinstance(args[0], Ref) and type(self.heap.get(args[0].id)).__name__ == "PyList":
+            return args[0] if n == "tuple" else I(len(self.heap[args[0].id].items))
         if n == "tuple" and args:
             a = args[0]
             if isinstance(a, MaybeV):
@@ -447,6 +459,9 @@ class GenExec(Exec):
 
     def ev_List(self, node, fr):
         if not node.elts:
+            if getattr(self, "rt", None) is not None:
+                from .gen_rt import PyList
+                return self.alloc(PyList())
             return self.alloc(EmptyList())
         return super().ev_List(node, fr)
 
@@ -454,12 +469,17 @@ class GenExec(Exec):
         # list.append on sequence-theory lists
         if node.attr == "append":
             base = self.ev(node.value, fr)
+            if isinstance(base, Ref) and type(self.heap.get(base.id)).__name__ == "PyList":
+                return BuiltinV("pylist.append", recv=base)
             if isinstance(base, Ref) and isinstance(self.heap.get(base.id), (EmptyList, ZSeq)):
                 return BuiltinV("zlist.append", recv=base)
         return super().ev_Attribute(node, fr)
 
     # ---- calls: abstract writer / reader, nested generated classes
     def call(self, f, args, kwargs, fr, node):
+        if isinstance(f, BuiltinV) and f.name == "pylist.append":
+            self.heap[f.recv.id].items.append(args[0])
+            return NONE
         if isinstance(f, BuiltinV) and f.name == "zlist.append":
             cur = self.heap[f.recv.id]
             u, elem = unit_of(args[0] if not isinstance(args[0], MaybeV) else self.none_use(args[0], "append"))
@@ -612,6 +632,8 @@ class GenExec(Exec):
     def reader_call(self, name, r, args, node):
         o = self.obj(r)
         V = self.V
+        if "rt" in o.fields:
+            return self.rt.call(name, args, node)
         if "cdata" in o.fields:
             return self.concrete_reader_call(name, o, args, node)
         st = o.fields["st"]
